@@ -9,46 +9,54 @@ open Hidi Hidi.GoLite Hidi.Gen
 attribute [local simp] GSt.setOctave GSt.setSemitone GSt.setMapping GSt.setChannel GSt.setLearning GSt.setNoteTr
   GSt.setAnaTr GSt.setActTr GSt.setKeyTr GSt.setExt
 
+theorem toGR_eq (r : Dev × List Out) (o : List Out) : toGR r o = toG r.1 (o ++ r.2) := rfl
+
 theorem cast_mod256 (n : Nat) : ((n % 256 : Nat) : Int) = (n : Int) % 256 := by omega
 
 /-- the twelve up / down / reset methods, CC-learning on / off -/
-theorem octaveUp_eq (d : Dev) : Body.octaveUp (toG d) = toGR (d.invokePress .octaveUp) := rfl
-theorem octaveDown_eq (d : Dev) : Body.octaveDown (toG d) = toGR (d.invokePress .octaveDown) := rfl
-theorem semitoneUp_eq (d : Dev) : Body.semitoneUp (toG d) = toGR (d.invokePress .semitoneUp) := rfl
-theorem semitoneDown_eq (d : Dev) : Body.semitoneDown (toG d) = toGR (d.invokePress .semitoneDown) := rfl
-theorem learningOn_eq (d : Dev) : Body.cCLearningOn (toG d) = toGR (d.invokePress .learning) := rfl
-theorem learningOff_eq (d : Dev) : Body.cCLearningOff (toG d) = toG (d.invokeRelease .learning) := rfl
+theorem octaveUp_eq (d : Dev) (o : List Out := []) : Body.octaveUp (toG d o) = toGR (d.invokePress .octaveUp) o := by
+  simp [Body.octaveUp, Id.run, pure, toG, toGR, Dev.invokePress, wrapInt]
+theorem octaveDown_eq (d : Dev) (o : List Out := []) : Body.octaveDown (toG d o) = toGR (d.invokePress .octaveDown) o := by
+  simp [Body.octaveDown, Id.run, pure, toG, toGR, Dev.invokePress, wrapInt]
+theorem semitoneUp_eq (d : Dev) (o : List Out := []) : Body.semitoneUp (toG d o) = toGR (d.invokePress .semitoneUp) o := by
+  simp [Body.semitoneUp, Id.run, pure, toG, toGR, Dev.invokePress, wrapInt]
+theorem semitoneDown_eq (d : Dev) (o : List Out := []) : Body.semitoneDown (toG d o) = toGR (d.invokePress .semitoneDown) o := by
+  simp [Body.semitoneDown, Id.run, pure, toG, toGR, Dev.invokePress, wrapInt]
+theorem learningOn_eq (d : Dev) (o : List Out := []) : Body.cCLearningOn (toG d o) = toGR (d.invokePress .learning) o := by
+  simp [Body.cCLearningOn, Id.run, pure, toG, toGR, Dev.invokePress]
+theorem learningOff_eq (d : Dev) (o : List Out := []) : Body.cCLearningOff (toG d o) = toG (d.invokeRelease .learning) o := by
+  simp [Body.cCLearningOff, Id.run, pure, toG, Dev.invokeRelease]
 
-theorem mappingUp_eq (d : Dev) : Body.mappingUp (toG d) = toGR (d.invokePress .mappingUp) := by
+theorem mappingUp_eq (d : Dev) (o : List Out := []) : Body.mappingUp (toG d o) = toGR (d.invokePress .mappingUp) o := by
   unfold Body.mappingUp Dev.invokePress
   simp only [Id.run, pure, GSt.setOctave, GSt.setSemitone, GSt.setMapping, GSt.setChannel, GSt.setLearning, GSt.setNoteTr, GSt.setAnaTr, GSt.setActTr, GSt.setKeyTr, GSt.setExt, toG, toGR, wrapInt, GSt.nMaps, bne_iff_ne, ne_eq]
   split <;> simp_all
 
-theorem mappingDown_eq (d : Dev) : Body.mappingDown (toG d) = toGR (d.invokePress .mappingDown) := by
+theorem mappingDown_eq (d : Dev) (o : List Out := []) : Body.mappingDown (toG d o) = toGR (d.invokePress .mappingDown) o := by
   unfold Body.mappingDown Dev.invokePress
   simp only [Id.run, pure, GSt.setOctave, GSt.setSemitone, GSt.setMapping, GSt.setChannel, GSt.setLearning, GSt.setNoteTr, GSt.setAnaTr, GSt.setActTr, GSt.setKeyTr, GSt.setExt, toG, toGR, wrapInt, bne_iff_ne, ne_eq]
   by_cases h : d.mapping = 0
   · simp [h]
   · have : ¬ ((d.mapping : Int) = 0) := by omega
-    simp only [this, h, not_false_eq_true, if_true, GSt.mk.injEq, and_true, true_and]
+    simp only [this, h, not_false_eq_true, if_true, GSt.mk.injEq, and_true, true_and, List.append_nil]
     omega
 
-theorem channelUp_eq (d : Dev) : Body.channelUp (toG d) = toGR (d.invokePress .channelUp) := by
+theorem channelUp_eq (d : Dev) (o : List Out := []) : Body.channelUp (toG d o) = toGR (d.invokePress .channelUp) o := by
   unfold Body.channelUp Dev.invokePress
   simp only [Id.run, pure, GSt.setOctave, GSt.setSemitone, GSt.setMapping, GSt.setChannel, GSt.setLearning, GSt.setNoteTr, GSt.setAnaTr, GSt.setActTr, GSt.setKeyTr, GSt.setExt, toG, toGR, wrapU8, bne_iff_ne, ne_eq]
   by_cases h : d.channel = 15
   · simp [h]
   · have : ¬ ((d.channel : Int) = 15) := by omega
-    simp only [this, h, not_false_eq_true, if_true, GSt.mk.injEq, and_true, true_and]
+    simp only [this, h, not_false_eq_true, if_true, GSt.mk.injEq, and_true, true_and, List.append_nil]
     omega
 
-theorem channelDown_eq (d : Dev) (hc : d.channel < 256) : Body.channelDown (toG d) = toGR (d.invokePress .channelDown) := by
+theorem channelDown_eq (d : Dev) (hc : d.channel < 256) (o : List Out := []) : Body.channelDown (toG d o) = toGR (d.invokePress .channelDown) o := by
   unfold Body.channelDown Dev.invokePress
   simp only [Id.run, pure, GSt.setOctave, GSt.setSemitone, GSt.setMapping, GSt.setChannel, GSt.setLearning, GSt.setNoteTr, GSt.setAnaTr, GSt.setActTr, GSt.setKeyTr, GSt.setExt, toG, toGR, wrapU8, bne_iff_ne, ne_eq]
   by_cases h : d.channel = 0
   · simp [h]
   · have : ¬ ((d.channel : Int) = 0) := by omega
-    simp only [this, h, not_false_eq_true, if_true, GSt.mk.injEq, and_true, true_and]
+    simp only [this, h, not_false_eq_true, if_true, GSt.mk.injEq, and_true, true_and, List.append_nil]
     omega
 
 /-! ### Panic -/
@@ -63,7 +71,7 @@ theorem noteEv_cast (ty ch note vel : Nat) : noteEv (ty : Int) (ch : Int) (note 
 theorem ccEv_cast (ch fn v : Nat) : ccEv (ch : Int) (fn : Int) (v : Int) = ccEvent ch fn v := by
   simp [ccEv]
 
-theorem panic_eq (d : Dev) : Body.panicAction (toG d) = toGR (d.invokePress .panic) := by
+theorem panic_eq (d : Dev) (o : List Out := []) : Body.panicAction (toG d o) = toGR (d.invokePress .panic) o := by
   unfold Body.panicAction Dev.invokePress
   simp only [Id.run, pure, GSt.setOctave, GSt.setSemitone, GSt.setMapping, GSt.setChannel, GSt.setLearning, GSt.setNoteTr, GSt.setAnaTr, GSt.setActTr, GSt.setKeyTr, GSt.setExt]
   have h1 : ∀ g : GSt, (List.range' 0 (128 - 0)).foldl (fun (d : GSt) (note_ : Nat) =>
@@ -90,29 +98,29 @@ theorem panic_eq (d : Dev) : Body.panicAction (toG d) = toGR (d.invokePress .pan
   have e0 : ((0 : Int)) = ((0 : Nat) : Int) := rfl
   have e123 : ((ccAllNotesOff : Nat) : Int) = ((123 : Nat) : Int) := rfl
   rw [e0, ccEv_cast]
-  simp only [List.singleton_append, List.cons.injEq, true_and]
+  simp only [List.append_assoc, List.singleton_append, List.append_cancel_left_eq, List.cons.injEq, true_and]
   rw [List.range_eq_range']
   apply List.map_congr_left
   intro n _
   exact noteEv_cast _ _ _ _
 
 /-- the dispatch table `actionsPress` of `NewDevice` -/
-theorem invokeActionPress_eq (d : Dev) (hc : d.channel < 256) (a : Action) :
-    Body.invokeActionPress (toG d) a = toGR (d.invokePress a) := by
+theorem invokeActionPress_eq (d : Dev) (hc : d.channel < 256) (a : Action) (o : List Out := []) :
+    Body.invokeActionPress (toG d o) a = toGR (d.invokePress a) o := by
   cases a <;> simp only [Body.invokeActionPress]
   all_goals first
-    | exact panic_eq d | exact mappingUp_eq d | exact mappingDown_eq d | exact octaveUp_eq d | exact octaveDown_eq d
-    | exact semitoneUp_eq d | exact semitoneDown_eq d | exact channelUp_eq d | exact channelDown_eq d hc
-    | exact learningOn_eq d | rfl
+    | exact panic_eq d o | exact mappingUp_eq d o | exact mappingDown_eq d o | exact octaveUp_eq d o | exact octaveDown_eq d o
+    | exact semitoneUp_eq d o | exact semitoneDown_eq d o | exact channelUp_eq d o | exact channelDown_eq d hc o
+    | exact learningOn_eq d o | simp [toGR, toG, Dev.invokePress]
 
-theorem invokeActionRelease_eq (d : Dev) (a : Action) :
-    Body.invokeActionRelease (toG d) a = toG (d.invokeRelease a) := by
-  cases a <;> first | exact learningOff_eq d | rfl
+theorem invokeActionRelease_eq (d : Dev) (a : Action) (o : List Out := []) :
+    Body.invokeActionRelease (toG d o) a = toG (d.invokeRelease a) o := by
+  cases a <;> first | exact learningOff_eq d o | rfl
 
 /-! ### `checkDoubleActions` -/
 
-theorem checkDouble_eq (d : Dev) :
-    Body.checkDoubleActions (toG d) = (toG d.checkDouble.1, d.checkDouble.2) := by
+theorem checkDouble_eq (d : Dev) (o : List Out := []) :
+    Body.checkDoubleActions (toG d o) = (toG d.checkDouble.1 o, d.checkDouble.2) := by
   unfold Body.checkDoubleActions Dev.checkDouble
   simp only [Id.run, pure, GSt.setOctave, GSt.setSemitone, GSt.setMapping, GSt.setChannel, GSt.setLearning, GSt.setNoteTr, GSt.setAnaTr, GSt.setActTr, GSt.setKeyTr, GSt.setExt, Body.mappingReset, Body.octaveReset, Body.semitoneReset, Body.channelReset, wrapInt, wrapU8]
   simp only [toG, List.contains_iff_mem, Bool.and_eq_true, decide_eq_true_eq]
@@ -134,8 +142,8 @@ theorem chan_cast (c off : Nat) : wrapU8 (wrapU8 ((c : Int) + (off : Int)) % (16
 theorem toNat_chan (c off : Nat) : (((c : Int) + (off : Int)) % 16 % 256).toNat = chanOf c off := by
   unfold chanOf; omega
 
-theorem noteOn_eq (d : Dev) (sub : Sub) (code : Code) (v t : Int) :
-    Body.noteOn (toG d) sub code v t = toGR (d.noteOn sub code) := by
+theorem noteOn_eq (d : Dev) (sub : Sub) (node : String) (code : Code) (v t : Int) :
+    Body.noteOn (toG d) sub node code v t = toGR (d.noteOn sub code) := by
   unfold Body.noteOn Dev.noteOn Dev.curMap
   simp only [Id.run, pure, GSt.setOctave, GSt.setSemitone, GSt.setMapping, GSt.setChannel, GSt.setLearning, GSt.setNoteTr, GSt.setAnaTr, GSt.setActTr, GSt.setKeyTr, GSt.setExt, GSt.mapIndexOk, GSt.nMaps, GSt.keyLookup]
   have hm : (toG d).mapping = (d.mapping : Int) := rfl
@@ -172,12 +180,12 @@ theorem noteOn_eq (d : Dev) (sub : Sub) (code : Code) (v t : Int) :
         cases hmode : d.cfg.mode <;> simp
         all_goals (repeat' split) <;> (try simp_all) <;> (try omega)
 
-theorem noteOff_eq (d : Dev) (sub : Sub) (code : Code) (v t : Int) :
-    Body.noteOff (toG d) sub code v t = toGR (d.noteOff code) := by
+theorem noteOff_eq (d : Dev) (sub : Sub) (node : String) (code : Code) (v t : Int) (o : List Out := []) :
+    Body.noteOff (toG d o) sub node code v t = toGR (d.noteOff code) o := by
   unfold Body.noteOff Dev.noteOff
   simp only [Id.run, pure, GSt.setOctave, GSt.setSemitone, GSt.setMapping, GSt.setChannel, GSt.setLearning, GSt.setNoteTr, GSt.setAnaTr, GSt.setActTr, GSt.setKeyTr, GSt.setExt, GSt.noteTrLookup]
-  have hn : (toG d).noteTr = d.noteTr := rfl
-  have hc : (toG d).cfg = d.cfg := rfl
+  have hn : (toG d o).noteTr = d.noteTr := rfl
+  have hc : (toG d o).cfg = d.cfg := rfl
   simp only [hn, hc]
   rcases Option.eq_none_or_eq_some (alookup code d.noteTr) with hk | ⟨p, hk⟩
   · simp [hk, toGR, toG]
@@ -189,12 +197,13 @@ theorem noteOff_eq (d : Dev) (sub : Sub) (code : Code) (v t : Int) :
         Bool.or_false, Bool.false_or, bne_iff_ne, ne_eq]
     all_goals (try (repeat' split)) <;> (try simp_all [GSt.count, Dev.count, noteEv]) <;> (try omega)
 
-theorem analogNoteOn_eq (d : Dev) (id : Code × Bool) (note chOff : Nat) (sub : Sub) (code : Code) (v t : Int) :
-    Body.analogNoteOn (toG d) id (note : Int) (chOff : Int) sub code v t = toGR (d.analogNoteOn id note chOff) := by
+theorem analogNoteOn_eq (d : Dev) (id : Code × Bool) (note chOff : Nat) (sub : Sub) (node : String) (code : Code) (v t : Int)
+    (o : List Out := []) :
+    Body.analogNoteOn (toG d o) id (note : Int) (chOff : Int) sub node code v t = toGR (d.analogNoteOn id note chOff) o := by
   unfold Body.analogNoteOn Dev.analogNoteOn Dev.transposed
   simp only [Id.run, pure, GSt.setOctave, GSt.setSemitone, GSt.setMapping, GSt.setChannel, GSt.setLearning, GSt.setNoteTr, GSt.setAnaTr, GSt.setActTr, GSt.setKeyTr, GSt.setExt, wrapInt]
-  have ho : (toG d).octave = d.octave := rfl
-  have hs : (toG d).semitone = d.semitone := rfl
+  have ho : (toG d o).octave = d.octave := rfl
+  have hs : (toG d o).semitone = d.semitone := rfl
   simp only [ho, hs]
   by_cases hr : ((note : Int) + d.octave * 12 + d.semitone < 0 ∨ 127 < (note : Int) + d.octave * 12 + d.semitone)
   · have e2 : ((note : Int) + d.octave * 12 + d.semitone < 0 ∨ (note : Int) + d.octave * 12 + d.semitone > 127) := by omega
@@ -206,11 +215,11 @@ theorem analogNoteOn_eq (d : Dev) (id : Code × Bool) (note chOff : Nat) (sub : 
     simp only [e2, if_false]
     simp [GSt.emit, toGR, toG, wrapU8, hr, e1, noteEv, toNat_chan]
 
-theorem analogNoteOff_eq (d : Dev) (id : Code × Bool) (sub : Sub) (code : Code) (v t : Int) :
-    Body.analogNoteOff (toG d) id sub code v t = toGR (d.analogNoteOff id) := by
+theorem analogNoteOff_eq (d : Dev) (id : Code × Bool) (sub : Sub) (node : String) (code : Code) (v t : Int) (o : List Out := []) :
+    Body.analogNoteOff (toG d o) id sub node code v t = toGR (d.analogNoteOff id) o := by
   unfold Body.analogNoteOff Dev.analogNoteOff
   simp only [Id.run, pure, GSt.setOctave, GSt.setSemitone, GSt.setMapping, GSt.setChannel, GSt.setLearning, GSt.setNoteTr, GSt.setAnaTr, GSt.setActTr, GSt.setKeyTr, GSt.setExt, GSt.anaTrLookup]
-  have hn : (toG d).anaTr = d.anaTr := rfl
+  have hn : (toG d o).anaTr = d.anaTr := rfl
   simp only [hn]
   rcases Option.eq_none_or_eq_some (alookup id d.anaTr) with hk | ⟨p, hk⟩
   · simp [hk, toGR, toG]
@@ -247,9 +256,9 @@ theorem checkExit_eq (d : Dev) :
 
 /-! ### `handleKEYEvent` -/
 
-theorem toG_setKeyTr (d : Dev) (x : List Code) : (toG d).setKeyTr x = toG { d with keyTr := x } := rfl
-theorem toG_setActTr (d : Dev) (x : List Action) : (toG d).setActTr x = toG { d with actTr := x } := rfl
-theorem toG_actTr (d : Dev) : (toG d).actTr = d.actTr := rfl
+theorem toG_setKeyTr (d : Dev) (x : List Code) (o : List Out := []) : (toG d o).setKeyTr x = toG { d with keyTr := x } o := rfl
+theorem toG_setActTr (d : Dev) (x : List Action) (o : List Out := []) : (toG d o).setActTr x = toG { d with actTr := x } o := rfl
+theorem toG_actTr (d : Dev) (o : List Out := []) : (toG d o).actTr = d.actTr := rfl
 theorem toG_noteTr (d : Dev) : (toG d).noteTr = d.noteTr := rfl
 theorem toG_multinote (d : Dev) : multinoteP (toG d) = toG d.multinote := by
   unfold multinoteP Dev.multinote
@@ -264,8 +273,8 @@ theorem checkDouble_channel_lt (d : Dev) (h : d.channel < 256) : d.checkDouble.1
 
 theorem toGR_toG (d : Dev) : toG d = toGR (d, []) := rfl
 
-theorem handleKey_eq (d : Dev) (hch : d.channel < 256) (sub : Sub) (code : Code) (v t : Int) :
-    Body.handleKEYEvent (toG d) sub code v t = toGR (d.handleKey sub code v) := by
+theorem handleKey_eq (d : Dev) (hch : d.channel < 256) (sub : Sub) (node : String) (code : Code) (v t : Int) :
+    Body.handleKEYEvent (toG d) sub node code v t = toGR (d.handleKey sub code v) := by
   unfold Body.handleKEYEvent Dev.handleKey Dev.curMap
   simp only [Id.run, pure, GSt.mapIndexOk, GSt.nMaps, GSt.keyLookup, GSt.actionLookup, GSt.noteTrLookup]
   have hm : (toG d).mapping = (d.mapping : Int) := rfl
@@ -342,4 +351,5 @@ theorem handleKey_eq (d : Dev) (hch : d.channel < 256) (sub : Sub) (code : Code)
             rfl
         · have hv0' : (v == 0) = false := by simpa using hv0
           simp [hv0, hv0', toGR_toG]
+
 end Hidi.BodiesTie
